@@ -767,3 +767,201 @@ def value_states(body, facts, keys=None, max_configs=200000):
 
     at = flow_states(body, facts, (), on_call, on_edge, max_configs=max_configs, on_block=on_block)
     return at, _vkey
+
+
+# ---------------------------------------------------------------------------
+# finite-domain evaluation of a small octet function
+# ---------------------------------------------------------------------------
+
+_ASCII_PRED = {
+    "is_ascii": lambda o: o < 128,
+    "is_ascii_uppercase": lambda o: 0x41 <= o <= 0x5A,
+    "is_ascii_lowercase": lambda o: 0x61 <= o <= 0x7A,
+    "is_ascii_alphabetic": lambda o: 0x41 <= o <= 0x5A or 0x61 <= o <= 0x7A,
+    "is_ascii_digit": lambda o: 0x30 <= o <= 0x39,
+    "is_ascii_alphanumeric": lambda o: 0x41 <= o <= 0x5A or 0x61 <= o <= 0x7A or 0x30 <= o <= 0x39,
+    "is_ascii_graphic": lambda o: 0x21 <= o <= 0x7E,
+    "is_ascii_whitespace": lambda o: o in (0x20, 0x09, 0x0A, 0x0C, 0x0D),
+    "is_ascii_control": lambda o: o < 0x20 or o == 0x7F,
+    "is_ascii_punctuation": lambda o: 0x21 <= o <= 0x7E and not chr(o).isalnum(),
+    "is_ascii_hexdigit": lambda o: chr(o) in "0123456789abcdefABCDEF",
+}
+_ASCII_MAP = {
+    "to_ascii_lowercase": lambda o: o + 32 if 0x41 <= o <= 0x5A else o,
+    "to_ascii_uppercase": lambda o: o - 32 if 0x61 <= o <= 0x7A else o,
+}
+
+
+def octet_fn_table(body, max_steps=400):
+    """For a loop-free function `fn(u8 | &u8) -> u8 | bool` made of comparisons, ranges, ASCII predicates and
+    bit arithmetic: the list of its 256 results, obtained by evaluating the MIR over the finite domain (an
+    abstract interpretation whose domain happens to be exact; nothing of the library is executed).  None if the
+    body has a shape this evaluator does not know (callers treat that as undecided, never as a pass)."""
+    if body.nargs != 1:
+        return None
+    out = []
+    for o in range(256):
+        env = {}
+        argty = body.locals[1]
+        if argty.lstrip("&").strip() not in ("u8",) :
+            return None
+        isref = argty.startswith("&")
+        env[1] = ("ref", "arg") if isref else o
+        cells = {"arg": o}
+
+        def rd_place(pl):
+            v = env.get(pl[0])
+            for pr in pl[1:]:
+                if pr == "*":
+                    if isinstance(v, tuple) and v[0] == "ref":
+                        v = cells.get(v[1])
+                    else:
+                        return None
+                elif isinstance(pr, list) and pr[0] == "." and isinstance(v, tuple) and v[0] == "tup":
+                    v = v[1][pr[1]]
+                else:
+                    return None
+            return v
+
+        def opv(x):
+            if x[0] == "k":
+                return x[2] if isinstance(x[2], (int, bool)) else None
+            if x[0] in ("c", "m"):
+                return rd_place(x[1])
+            return None
+
+        def rv_eval(rv):
+            k = rv[0]
+            if k == "use":
+                return opv(rv[1])
+            if k == "ref":
+                pl = rv[2]
+                if len(pl) == 1:
+                    cells[("l", pl[0])] = env.get(pl[0])
+                    return ("ref", ("l", pl[0]))
+                if len(pl) == 2 and pl[1] == "*":
+                    return env.get(pl[0])       # reborrow
+                return None
+            if k == "cast":
+                v = opv(rv[2])
+                return int(v) if isinstance(v, (int, bool)) else None
+            if k == "un":
+                v = opv(rv[2])
+                if v is None:
+                    return None
+                return (0 if v else 1) if rv[1] == "Not" and v in (0, 1, True, False) else ((~v) & 0xFF if rv[1] == "Not" else None)
+            if k == "bin":
+                a, c = opv(rv[2]), opv(rv[3])
+                if not isinstance(a, (int, bool)) or not isinstance(c, (int, bool)):
+                    return None
+                a, c = int(a), int(c)
+                op = rv[1]
+                chk = op.endswith("WithOverflow")
+                op = op.replace("WithOverflow", "").replace("Unchecked", "")
+                try:
+                    r = {"Add": a + c, "Sub": a - c, "Mul": a * c, "BitAnd": a & c, "BitOr": a | c, "BitXor": a ^ c,
+                         "Shl": a << c if 0 <= c < 16 else None, "Shr": a >> c if 0 <= c < 16 else None,
+                         "Lt": int(a < c), "Le": int(a <= c), "Gt": int(a > c), "Ge": int(a >= c), "Eq": int(a == c), "Ne": int(a != c)}.get(op)
+                except Exception:
+                    return None
+                if r is None:
+                    return None
+                if op in ("Add", "Sub", "Mul", "Shl"):
+                    ovf = not (0 <= r <= 255)
+                    r &= 0xFF
+                    return ("tup", (r, int(ovf))) if chk else r
+                return r
+            if k == "agg":
+                kind = rv[1]
+                vals = [opv(x) for x in rv[2]]
+                if kind[0] == "adt" and str(kind[1]).endswith("ops::Range") and len(vals) == 2 and None not in vals:
+                    return ("range", vals[0], vals[1], False)
+                if kind[0] == "tuple":
+                    return ("tup", tuple(vals))
+                return None
+            return None
+
+        bb, steps, res = 0, 0, None
+        while steps < max_steps:
+            steps += 1
+            blk = body.blocks[bb]
+            bad = False
+            for st in blk["s"]:
+                if st[0] != "=":
+                    continue
+                v = rv_eval(st[2])
+                pl = st[1]
+                if len(pl) == 1:
+                    env[pl[0]] = v
+                else:
+                    bad = True
+            if bad:
+                return None
+            t = blk["t"]
+            k = t["k"]
+            if k == "ret":
+                res = env.get(0)
+                break
+            if k == "goto":
+                bb = t["t"]
+                continue
+            if k == "switch":
+                d = opv(t["d"])
+                if not isinstance(d, (int, bool)):
+                    return None
+                d = int(d)
+                nxt = t["o"]
+                for v, tb in t["v"]:
+                    if v == d:
+                        nxt = tb
+                bb = nxt
+                continue
+            if k == "assert":
+                c = opv(t["cond"])
+                if c is None:
+                    return None
+                if bool(c) != bool(t["exp"]):
+                    res = "panic"
+                    break
+                bb = t["t"]
+                continue
+            if k == "call":
+                fn = (t["fn"] or "")
+                plain = fn
+                while True:
+                    nxt_ = re.sub(r"<[^<>]*>", "", plain)
+                    if nxt_ == plain:
+                        break
+                    plain = nxt_
+                last = [x for x in plain.split("::") if x][-1] if plain else ""
+                args = [opv(a) for a in t["args"]]
+
+                def deref(v):
+                    while isinstance(v, tuple) and v[0] == "ref":
+                        v = cells.get(v[1])
+                    return v
+                r = None
+                if last == "contains" and len(args) == 2:
+                    rg, x = deref(args[0]), deref(args[1])
+                    if isinstance(rg, tuple) and rg[0] == "range" and isinstance(x, int):
+                        r = int(rg[1] <= x < rg[2] or (rg[3] and x == rg[2] and rg[1] <= x))
+                elif last == "new" and "RangeInclusive" in fn and len(args) == 2 and None not in args:
+                    r = ("range", args[0], args[1], True)
+                elif last in _ASCII_PRED and len(args) == 1:
+                    x = deref(args[0])
+                    if isinstance(x, int):
+                        r = int(_ASCII_PRED[last](x))
+                elif last in _ASCII_MAP and len(args) == 1:
+                    x = deref(args[0])
+                    if isinstance(x, int):
+                        r = _ASCII_MAP[last](x)
+                if r is None or t["dest"] is None or len(t["dest"]) != 1 or t["t"] is None:
+                    return None
+                env[t["dest"][0]] = r
+                bb = t["t"]
+                continue
+            return None
+        if res is None or (isinstance(res, tuple)):
+            return None
+        out.append(res)
+    return out
